@@ -1,2 +1,5 @@
-import AlgoVerif.Common
-/-! # C13 — property theorems (none yet) -/
+import AlgoVerif.Model.C13
+/-! # C13 — property theorems (placeholder while the proofs are being written) -/
+open AlgoVerif AlgoVerif.C13
+
+theorem C13_placeholder : (NFA.new 0 [1]).start = 0 := rfl
